@@ -896,7 +896,9 @@ func (ls *LanceroSource) distributeData(buffersMsg BuffersChanType) *dataBlock {
 		block.segments[channelIndex] = seg
 		block.nSamp = len(data)
 	}
-	ls.nextFrameNum += FrameIndex(framesUsed)
+	// The frames lost before this block count too, or the next block would be numbered
+	// as if it preceded the end of this one.
+	ls.nextFrameNum += FrameIndex(framesUsed + droppedFrames)
 	ls.previousLastSampleTime = lastSampleTime
 	if ls.heartbeats != nil {
 		mb := float64(totalBytes) / 1e6
